@@ -182,7 +182,8 @@ def r2(R, repo):
     R.check(len(tests) == 2 and len(set(tests)) == 1 and 'PARTITION_NAME in self.transform_metadata' in tests[0], key_of(f, 'both under the same PARTITION_NAME test'), f, 'both metadata updates must be guarded by the same `PARTITION_NAME in transform_metadata` test')
   uf = it.func('_update_variable_sharding_metadata._update_axes_fn')
   calls = [x for x in astu.func_calls(uf) if astu.call_name(x) == 'axis_fn']
-  ok = len(calls) == 2 and [astu.src(a) for a in calls[0].args] == ['state', 'node_states.metadata', 'transform_metadata'] and [astu.src(a) for a in calls[1].args] == ['state', 'axis', 'transform_metadata']
+  argsets = sorted([astu.src(a) for a in x.args] for x in calls)
+  ok = len(calls) == 2 and argsets == sorted([['state', 'node_states.metadata', 'transform_metadata'], ['state', 'axis', 'transform_metadata']])
   R.judge(len(calls) == 2 and all(len(x.args) == 3 for x in calls), ok, key_of(uf, 'axis_fn(state, its own axis, transform_metadata)'), uf, '_update_axes_fn must call axis_fn with each state and the axis declared for that state')
 
 
